@@ -129,6 +129,10 @@ def fmt_case(c):
         s.append("ind " + " ".join(map(str, c["ind"])))
         s.append("val " + " ".join(float(x).hex() for x in c["val"]))
         s.append("b " + " ".join(float(x).hex() for x in c["b"]))
+        if c.get("ldb"):
+            s.append("ldb %d" % c["ldb"])
+        if c.get("ldx"):
+            s.append("ldx %d" % c["ldx"])
         if c.get("xpert"):
             s.append("xpert " + " ".join(float(x).hex() for x in c["xpert"]))
         if c.get("apert"):
@@ -201,7 +205,7 @@ def parse_out(path):
                 cur["ev"].append(tuple([name] + [int(x) for x in t[3:]]))
         elif k == "direct":
             cur["direct"][chr(int(t[2]))] = (_fl(t[3]), _fl(t[4]), int(t[5]))
-        elif k in ("info", "equed", "nsuper"):
+        elif k in ("info", "equed", "nsuper", "padbad"):
             cur[k] = int(t[2])
         elif k in ("rcond", "rpg", "direct_rpg", "direct_maxabs"):
             cur[k] = _fl(t[2])
